@@ -399,8 +399,13 @@ add("decodeRotation", "Decode", ["C06"], "acryo/alignment/_base.py", "expr",
 
 def _post_align_label(t):
     fn = func(t, "LoaderBase._post_align_multi_templates")
-    node = first(fn, ast.If, lambda n: "remainder" in ast.unparse(n.test))
-    return [node], ["labels"]
+    # the reduction modulo the number of templates and the narrowing cast, in source order
+    stmts = [st for st in fn.body
+             if (isinstance(st, ast.If) and "remainder" in ast.unparse(st.test))
+             or (isinstance(st, ast.Assign) and ast.unparse(st.targets[0]) == "labels" and ".astype(" in ast.unparse(st.value))]
+    if not any(isinstance(st, ast.If) for st in stmts):
+        raise SelectorMiss("label reduction not found")
+    return stmts, ["labels"]
 
 
 add("reduceLabel", "Decode", ["C06"], "acryo/loader/_base.py", "func",
@@ -1354,3 +1359,62 @@ def _prep_slices_axis(t):
 
 
 add("simClipUsesSlicePad", "Sim", ["C14"], _SIM, "const", [], pattern(_prep_slices_axis))
+
+
+# ==========================================================================================
+# C05  units of max_shifts along the loader entry points
+# ==========================================================================================
+def _max_shift_units(t):
+    """Each loader entry normalises max_shifts once (nm), converts it to pixels exactly once into
+    `_max_shifts_px`, hands the pixel value to the alignment model and the nm value to other loader
+    methods (which convert themselves)."""
+    for q in ("LoaderBase.align", "LoaderBase.align_multi_templates", "LoaderBase.construct_landscape"):
+        fn = func(t, q)
+        asg = [n for n in ordered(fn) if isinstance(n, ast.Assign) and ast.unparse(n.targets[0]) == "max_shifts"]
+        if len(asg) != 1 or _unparse_norm(asg[0].value) != "_normalize_max_shifts(max_shifts)":
+            raise SelectorMiss(q + ": max_shifts is not normalised exactly once")
+        px = [n for n in ordered(fn) if isinstance(n, ast.Assign) and ast.unparse(n.targets[0]) == "_max_shifts_px"]
+        if len(px) != 1 or _unparse_norm(px[0].value) not in ("tuple(np.asarray(max_shifts)/self.scale)",
+                                                              "np.asarray(max_shifts)/self.scale"):
+            raise SelectorMiss(q + ": pixel conversion changed")
+        for c in ordered(fn):
+            if not isinstance(c, ast.Call):
+                continue
+            f = ast.unparse(c.func)
+            for k in c.keywords:
+                if k.arg == "max_shifts":
+                    v = ast.unparse(k.value)
+                    if f.endswith("align_multi_templates") and v != "max_shifts":
+                        raise SelectorMiss(q + ": nm value expected by align_multi_templates")
+                    if (f.endswith("construct_mapping_tasks") or f.endswith("iter_mapping_tasks")) and v != "_max_shifts_px":
+                        raise SelectorMiss(q + ": pixel value expected by the model")
+    return True
+
+
+add("maxShiftsUnitsFlow", "Pose", ["C05"], "acryo/loader/_base.py", "const", [], pattern(_max_shift_units))
+
+
+# ==========================================================================================
+# C16  the cached Butterworth weight is never modified in place
+# ==========================================================================================
+def _weight_cache_pure(t):
+    for fn in [n for n in ast.walk(t) if isinstance(n, ast.FunctionDef)]:
+        src = ast.unparse(fn)
+        if "nd_butterworth_weight(" not in src or fn.name == "nd_butterworth_weight":
+            continue
+        names = {ast.unparse(n.targets[0]) for n in ast.walk(fn) if isinstance(n, ast.Assign)
+                 and "nd_butterworth_weight(" in ast.unparse(n.value) and not isinstance(n.value, ast.BinOp)}
+        for n in ast.walk(fn):
+            if isinstance(n, ast.AugAssign) and ast.unparse(n.target).split("[")[0] in names:
+                raise SelectorMiss(fn.name + ": cached weight modified in place")
+            if isinstance(n, ast.Call):
+                for k in n.keywords:
+                    if k.arg == "out" and ast.unparse(k.value).split("[")[0] in names:
+                        raise SelectorMiss(fn.name + ": cached weight used as out=")
+            if isinstance(n, ast.Assign) and isinstance(n.targets[0], ast.Subscript) \
+                    and ast.unparse(n.targets[0].value) in names:
+                raise SelectorMiss(fn.name + ": cached weight written through an index")
+    return True
+
+
+add("butterworthCacheNotMutated", "Lowpass", ["C16"], "acryo/_utils.py", "const", [], pattern(_weight_cache_pure))
